@@ -66,7 +66,7 @@
 (*           observations for equal files whatever was read before             *)
 (*           ("ReadSeq"); the same files on 4 threads at once ("ReadThreads"); *)
 (*           a formula-defined long history in a process limited to 256 open   *)
-(*           files ("ReadRep": empty file x 300, malformed file x 300, valid   *)
+(*           files ("ReadRep": empty file x 300, malformed file x 20000, valid   *)
 (*           document).  Every call leaves the open files alone (FdDelta).     *)
 (*                                                                             *)
 (* Laws:                                                                       *)
@@ -479,10 +479,12 @@ ThreadCase(r) ==      \* 4 threads; thread t reads the pool rotated by r + 2 t
   [a |-> "ReadThreads", arg |-> [threads |-> [t \in 1..4 |-> [i \in 1..Len(PoolSeq) |-> Join(docs(t)[i])]], rounds |-> 40], cls |-> "",
    exp |-> [threads |-> [t \in 1..4 |-> [i \in 1..Len(PoolSeq) |-> StepExp(docs(t)[i])]], distinct |-> 1]]
 \* a long history defined by formula: ReadRep(file, n) = the same file n times.  In a process that may hold 256 descriptors:
-\* the empty file 300 times, a malformed file 300 times (the throwing path), then a valid document - every call answers as
-\* the first one did, leaves the open files alone, and the valid document is read faithfully
+\* the empty file 300 times, a malformed file 20000 times (the throwing path; long enough that per-call state left behind
+\* by a rejected parse - a counter, a depth, a buffer - accumulates past any plausible bound: leak-only variant of
+\* seeded/C16-07), then a valid document - every call answers as the first one did, leaves the open files alone, and the
+\* valid document is read faithfully
 RepCase ==
-  LET parts == << [doc |-> PoolSeq[1], n |-> 300], [doc |-> PoolSeq[4], n |-> 300], [doc |-> PoolSeq[7], n |-> 2] >> IN
+  LET parts == << [doc |-> PoolSeq[1], n |-> 300], [doc |-> PoolSeq[4], n |-> 20000], [doc |-> PoolSeq[7], n |-> 2] >> IN
   [a |-> "ReadRep", arg |-> [nofile |-> 256, parts |-> [k \in DOMAIN parts |-> [doc |-> Join(parts[k].doc), n |-> parts[k].n]]], cls |-> "",
    exp |-> [nofile |-> 256, fd_delta_total |-> FdDelta,
             parts |-> [k \in DOMAIN parts |-> [first |-> StepExp(parts[k].doc), reads |-> parts[k].n, distinct |-> 1,
